@@ -13,7 +13,10 @@
                               the tree: `text_gets_its_C_value_all_spellings` proves that this is what the model
                               (`evalStr`) returns on every spelling of the tree, of any size — the list-based
                               model itself is quadratic and would need minutes for 130 KB.
-    U <text>                  totality only (text with non-ASCII alphanumerics, outside the model)
+    W <extra> <env> <text>    a text with non-ASCII alphanumerics (`V` = portable): `extra` = the non-ASCII characters
+                              of the text for which `char::is_alphanumeric` holds (hex), the parameter of
+                              `evalStrU` (Unicode.lean); full observation, Spec column `-`
+    U <text>                  legacy: totality only
     S <opts> <globals> <kind> <locals> <exprs>
                               shell-level scenario (see `Shell.lean`): opts `-` or flags `u` (set -u) `p` (set -o
                               portable); globals/locals
@@ -23,14 +26,20 @@
                               Observation: output lines joined by `|` (an expansion: hex of its text; a
                               variable seen by `"${name-U}"`: hex fields joined by `,`), then `END` + the final
                               global variables, or `ERR` when the shell exited at a failing expansion.
-  Observation: `ok <value> <sorted final env>` or `error`; for `U` lines `total`.
+  Observation: `ok <value> <sorted final env>` or `error <cause>` (the leaf variant of `Error::cause`,
+  `showCause`); for `U` lines `total`.
   Spec column: `=<observation>` computed by `Spec.evalExact` on `Spec.parseText text`; `-` when the tree is
-  outside `Spec.inScope`; `FAIL:…` when the harness' tree is not the tree the Spec reads from the text.
+  outside `Spec.inScope`; `FAIL:…` when the harness' tree is not the tree the Spec reads from the text, or when
+  the code's parser model does not build `rpn` of the tree the Spec reads (checked on every case with a tree-
+  shaped text; theorem `checked_tree_gets_its_C_value` turns that check into the agreement of the columns);
+  `=error <cause>` for a failing evaluation (`specError`).
 -/
 import YashModel.Common.Proto
 import YashModel.Arith.Model
 import YashModel.Arith.Spec
 import YashModel.Arith.Shell
+import YashModel.Arith.Unicode
+import YashModel.Arith.TreeLemmas
 open YashModel YashModel.Arith YashModel.Proto
 open YashModel.Generated.ArithTables
 
@@ -47,13 +56,62 @@ def showEnv (env : List (List Char × List Char)) : String :=
   if sorted.isEmpty then "-" else
   ",".intercalate (sorted.map fun (n, v) => encStr n ++ ":" ++ encStr v)
 
-def showOutcome : Outcome → String
-  | .value v env => s!"ok {v} {showEnv env}"
-  | .syntaxError .fuel => "FUEL"
-  | .syntaxError _ => "error"
-  | .evalError _ => "error"
-  | .panic => "MODEL-PANIC"
-  | .fuel => "FUEL"
+/-- the leaf variant of `Error::cause` as the harness names it (`cause_label` in c03.rs) -/
+def showCause : Cause → String
+  | .token .invalidNumericConstant => "numconst"
+  | .token .invalidCharacter => "badchar"
+  | .syntax .tokenError => "TOKEN-ERROR-WITHOUT-KIND"
+  | .syntax .incompleteExpression => "incomplete"
+  | .syntax .missingOperator => "missingop"
+  | .syntax .unclosedParenthesis => "paren"
+  | .syntax .questionWithoutColon => "question"
+  | .syntax .colonWithoutQuestion => "colon"
+  | .syntax .invalidOperator => "invalidop"
+  | .syntax .fuel => "FUEL"
+  | .portability => "portable"
+  | .eval .invalidVariableValue => "value"
+  | .eval .overflow => "overflow"
+  | .eval .divisionByZero => "divzero"
+  | .eval .leftShiftingNegative => "lshiftneg"
+  | .eval .reverseShifting => "revshift"
+  | .eval .assignmentToValue => "assignvalue"
+  | .eval .getVariableError => "getvar"
+  | .eval .assignVariableError => "assignvar"
+
+/-- observation of one evaluation: the outcome (`none` = rejected by the portability check) and its cause -/
+def showRun (o : Option Outcome) (cause : Option Cause) : String :=
+  match o, cause with
+  | some (.value v env), none => s!"ok {v} {showEnv env}"
+  | some (.value _ _), some _ => "CAUSE-OF-A-VALUE"
+  | some .panic, _ => "MODEL-PANIC"
+  | some .fuel, _ => "FUEL"
+  | some (.syntaxError .fuel), _ => "FUEL"
+  | _, some c => "error " ++ showCause c
+  | _, none => "ERROR-WITHOUT-CAUSE"
+
+/-- the three groups of `ErrorCause` (lib.rs) -/
+inductive Group where
+  | syntax | portability | eval
+  deriving DecidableEq
+
+def causeGroup : Cause → Group
+  | .token _ => .syntax
+  | .syntax _ => .syntax
+  | .portability => .portability
+  | .eval _ => .eval
+
+def showGroup : Group → String
+  | .syntax => "SYNTAX-GROUP" | .portability => "portable" | .eval => "EVAL-GROUP"
+
+/-- Spec column of a failing evaluation.  The Spec says THAT the evaluation fails and in which group of
+    `ErrorCause` (text that is not an expression: syntax; `++`/`--` under `portable`; a tree without a value:
+    evaluation); which of two failing operands of a tree is reported it does not say (C does not order them):
+    inside the group the model's leaf cause is taken over, outside the group the column disagrees with
+    everything. -/
+def specError (g : Group) (model : Option Cause) : String :=
+  match model with
+  | some c => if causeGroup c = g then "=error " ++ showCause c else "=error " ++ showGroup g
+  | none => "=error " ++ showGroup g
 
 def showSpec : Option (Int × Spec.Env) → String
   | some (v, env) => s!"ok {v} {showEnv env}"
@@ -103,8 +161,8 @@ def parsePolish : Nat → List String → Option (Spec.Expr × List String)
 def runE (portable : Bool) (envT textT : String) (treeWords : List String) : String :=
   match decEnv envT, decChars textT with
   | some env, some text =>
-    let model := if portable then (match evalStrPortable text env with | some o => showOutcome o | none => "error")
-      else showOutcome (evalStr text env)
+    let cause := evalStrCause portable text env
+    let model := showRun (if portable then evalStrPortable text env else some (evalStr text env)) cause
     let tree : Option (Option Spec.Expr) :=
       if treeWords.isEmpty then some none
       else match parsePolish (treeWords.length + 1) treeWords with
@@ -116,12 +174,18 @@ def runE (portable : Bool) (envT textT : String) (treeWords : List String) : Str
       | some tree =>
         match Spec.parseText text, tree with
         | none, some _ => "FAIL:spec-rejects-rendered-tree"
-        | none, none => "=error"
+        | none, none => specError .syntax cause
         | some e, tree =>
           if tree.isSome ∧ tree ≠ some e then "FAIL:spec-reads-another-tree"
-          else if portable ∧ Spec.hasIncDec e then "=error"
+          -- the hypothesis of `checked_tree_gets_its_C_value`, checked on every case: the code's parser model
+          -- lays out exactly the vector of the tree the Spec reads (trees and vectors are one to one)
+          else if (match parse text with | .ok a => a != rpn e | .error _ => true) then
+            "FAIL:parser-model-does-not-build-the-vector-of-the-tree-the-Spec-reads"
+          else if portable ∧ Spec.hasIncDec e then specError .portability cause
           else if !Spec.inScope e then "-"
-          else "=" ++ showSpec (Spec.evalExact e env)
+          else match Spec.evalExact e env with
+            | none => specError .eval cause
+            | some r => "=" ++ showSpec (some r)
     model ++ "\t" ++ spec
   | _, _ => "bad-case\t-"
 
@@ -311,10 +375,21 @@ def runS (opts globals kind locals exprs : String) : String :=
     showOutcome2 (runScenario allNames sc) ++ "\t" ++ specScenario sc
   | _, _, _, _ => "bad-case\t-"
 
+/-- `W`/`V` lines: the Unicode tokenizer with the per-case set of non-ASCII alphanumerics -/
+def runW (portable : Bool) (extraT envT textT : String) : String :=
+  match decChars extraT, decEnv envT, decChars textT with
+  | some extra, some env, some text =>
+    if extra.any (fun c => c.toNat < 128) then "bad-case\t-" else
+    let cause := evalStrCauseU extra portable text env
+    showRun (if portable then evalStrPortableU extra text env else some (evalStrU extra text env)) cause ++ "\t-"
+  | _, _, _ => "bad-case\t-"
+
 def runLine (line : String) : String :=
   match words line with
   | "E" :: envT :: textT :: tree => runE false envT textT tree
   | "P" :: envT :: textT :: tree => runE true envT textT tree
+  | ["W", extraT, envT, textT] => runW false extraT envT textT
+  | ["V", extraT, envT, textT] => runW true extraT envT textT
   | ["U", _] => "total\t-"
   | "Z" :: envT :: tree =>
     match decEnv envT, parsePolish (tree.length + 1) tree with
